@@ -188,16 +188,16 @@ theorem addHierarchy_nodes (lim : Option Nat) (g : PGraph Str) (ps : List Str) (
   simp only []
   rw [edgeFold_nodes, nodeFold_nodes]
 
-theorem addImport_nodes (lim : Option Nat) (g : PGraph Str) (i : ImportRec) (s : Str) :
-    s ∈ (addImport lim g i).nodes ↔ s ∈ g.nodes ∨ ∃ p ∈ parentModules i.importer, s = flattenNode lim p := by
+theorem addImport_nodes (lim : Option Nat) (known : List Str) (g : PGraph Str) (i : ImportRec) (s : Str) :
+    s ∈ (addImport lim known g i).nodes ↔ s ∈ g.nodes ∨ ∃ p ∈ parentModules i.importer, s = flattenNode lim p := by
   unfold addImport
   simp only []
-  rw [edgeFold_nodes, addHierarchy_nodes, createEdge_nodes]
+  rw [edgeFold_nodes, addHierarchy_nodes, addImport_nodes_first]
 
 theorem buildGraph_nodup (mods : List Str) (imports : List ImportRec) (lim : Option Nat) :
     (buildGraph mods imports lim).nodes.Nodup := by
   unfold buildGraph
-  apply foldl_inv (addImport lim) (fun g => g.nodes.Nodup) _ (fun g x _ h => addImport_nodup lim g x h)
+  apply foldl_inv (addImport lim _) (fun g => g.nodes.Nodup) _ (fun g x _ h => addImport_nodup lim _ g x h)
   unfold addAllModules
   apply foldl_inv _ (fun g => g.nodes.Nodup) _
     (fun g x _ h => addHierarchy_nodup lim _ _ _ (createNode_nodup lim g x h))
